@@ -27,7 +27,7 @@ def spd(rng, n):
     return np.round(Q * 4) / 4
 
 
-def draw_convex(rng, family=None, n=None, constrained=True, bounds=True, sense=None, scalars=True):
+def draw_convex(rng, family=None, n=None, constrained=True, bounds=True, sense=None, scalars=True, simple_constraints_only=False):
     family = family or rng.choice(FAMILIES)
     n = n or rng.randint(2, 4)
     decls = []
@@ -57,8 +57,17 @@ def draw_convex(rng, family=None, n=None, constrained=True, bounds=True, sense=N
     terms = []
     if family == "quad":
         Q = spd(rng, n)
-        form = rng.choice(["qf", "dotQ", "expanded"])
-        if form == "qf":
+        form = rng.choice(["qf", "dotQ", "expanded", "qf-triangular", "qf-triangular-vexpr", "qf-vexpr"])
+        T_ = (np.triu(Q, 1) + np.diag(np.diag(Q)) / 2.0)  # x'Tx = 0.5 x'Qx with a triangular (structurally asymmetric) matrix
+        if rng.random() < 0.5:
+            T_ = T_.T
+        if form == "qf-triangular":
+            terms.append(["qf", x, T_.tolist()])
+        elif form == "qf-triangular-vexpr":
+            terms.append(["qf", ["vbin", "*", x, ["raw", 1.0, "float"]], T_.tolist()] if rng.random() < 0.5 else ["qf", ["vbin", "-", x, ["arr", [0.0] * n]], T_.tolist()])
+        elif form == "qf-vexpr":
+            terms.append(["bin", "*", ["raw", 0.5, "float"], ["qf", ["vbin", "+", x, ["raw", 0.0, "float"]], Q.tolist()]])
+        elif form == "qf":
             terms.append(["bin", "*", ["raw", 0.5, "float"], ["qf", x, Q.tolist()]])
         elif form == "dotQ":
             terms.append(["bin", "*", ["raw", 0.5, "float"], ["dotQ", x, Q.tolist(), x]])
@@ -113,9 +122,16 @@ def draw_convex(rng, family=None, n=None, constrained=True, bounds=True, sense=N
             kind = rng.choice(["lin-ineq", "lin-ineq", "lin-eq", "quad-ineq"])
             if kind == "lin-eq" and any(c["type"] == "eq" for c in cons):
                 kind = "lin-ineq"
+            if simple_constraints_only:
+                kind = "lin-ineq"
             if kind.startswith("lin"):
                 sub = rng.sample(names, rng.randint(1, min(3, N)))
                 coef = {nm: q(rng, -2, 2, nz=True) for nm in sub}
+                if simple_constraints_only:
+                    # every constraint handed to subject_to() is a single-variable linear one (x[k] <= cap written as a constraint)
+                    free = [nm for nm in names if not any(nm in c.get("vars", ()) for c in cons)] or names
+                    sub = [rng.choice(free)]
+                    coef = {sub[0]: rng.choice([1.0, -1.0, 2.0])}
                 lin = None
                 for nm, cf in coef.items():
                     t = ["bin", "*", ["raw", cf, "float"], _vnode(D, nm)]
@@ -150,7 +166,11 @@ def draw_convex(rng, family=None, n=None, constrained=True, bounds=True, sense=N
                         nl = ["neg", lin]
                         rel = ["rel", ">=", nl, ["raw", -(at + slack), "float"], "direct"]
                         g = ["bin", "-", lin, ["raw", at + slack, "float"]]
-                    cons.append({"rel": rel, "g": g, "type": "ineq", "active": active, "lam": (0.25 + abs(q(rng, 0, 2))) if active else 0.0})
+                    if simple_constraints_only and ci == 0:
+                        active, slack = True, 0.0
+                        rel = ["rel", "<=", lin, ["raw", at, "float"], "direct"]
+                        g = ["bin", "-", lin, ["raw", at, "float"]]
+                    cons.append({"rel": rel, "g": g, "type": "ineq", "active": active, "lam": (0.25 + abs(q(rng, 0, 2))) if active else 0.0, "vars": tuple(sub)})
                     n_active += int(active)
             else:
                 cvec = {nm: q(rng, -1, 1) for nm in names}
